@@ -244,7 +244,7 @@ func c17Gen(rng *mrand.Rand) (N int, W int64, evs []c17Ev) {
 				curN = n
 			}
 			step()
-		case 8: // SetWindow
+		case 8: // SetWindow, ring read before and after
 			w := c17Windows[rng.Intn(len(c17Windows))]
 			if rng.Intn(3) == 0 {
 				w = 1e6 + rng.Int63n(3e9)
@@ -252,7 +252,9 @@ func c17Gen(rng *mrand.Rand) (N int, W int64, evs []c17Ev) {
 			if curN == 0 && rng.Intn(4) != 0 {
 				w = 0
 			}
+			add('q', 0) // the ring is read before and after: a window change leaves the remembered admissions alone
 			add('w', w)
+			add('q', 0)
 			if !(curN == 0 && w != 0) {
 				curW = w
 			}
